@@ -331,7 +331,7 @@ def clause7_one_of(ctx, P):
         for v in views:
             if v.ret_is_null():
                 continue
-            adds = [i for _, i in v.calls("cJSON_AddItemToObject")]
+            adds = [i for _, i in v.calls(("cJSON_AddItemToObject", "add_item_to_object"))]
             keys = []
             for a in adds:
                 lit = Q.arg_literal(P, a, 1)
